@@ -992,6 +992,10 @@ func (rl *Shell) viYankWholeLine() {
 	rl.selection.Visual(true)
 
 	bpos, epos := rl.selection.Pos()
+	if bpos < 0 || epos < 1 {
+		rl.selection.Reset()
+		return
+	}
 
 	// If selection has a new line, remove it.
 	if (*rl.line)[epos-1] == '\n' {
